@@ -71,7 +71,7 @@ claim('C10', 'proof', K1 + '; ' + BD,
       'the whole-history statement (any finite sequence of queries) follows from per-operation invariant preservation by induction over the history; that induction is not machine checked. Section-name and symbol-name maps, abbreviation and line-program caches, decoded call-frame tables are covered only by the bounded history differentials (entry queries, call-frame decode orders)')
 claim('C11', 'proof', K2 + '; ' + K1 + '; ' + BD,
       'K2: debuglink (padding lambda proved), debugsup, debugaltlink structs; K1 (all inputs): Section.__init__/Section.data (gABI compression: header, declared-size check, zlib) ; bounded differential: one generated payload stored plainly, SHF_COMPRESSED (levels 1/6/9, partial), in the legacy .zdebug framing and behind a gnu_debuglink with right/wrong checksum, both classes and byte orders: identical units/entries/section contents, presence reporting, rejection of a wrong checksum and of a wrong declared size',
-      'get_dwarf_info / _read_dwarf_section / _decompress_dwarf_section / _file_crc32 are NOT under K1 contract (19-section loop, streaming zlib): covered by the bounded differential only; supplementary-file links not exercised; zlib assumed; Sem of construct node kinds assumed')
+      'get_dwarf_info / _read_dwarf_section / _decompress_dwarf_section / _file_crc32 are NOT under K1 contract (19-section loop, streaming zlib): covered by the bounded differential only; supplementary-file links exercised with main payloads of versions 2-4 only (no *_sup form operands); zlib assumed; Sem of construct node kinds assumed')
 claim('C12', 'proof', K1 + '; ' + K2 + '; ' + BD,
       'dispatch table of the expression parser: for every DW_OP code the registered parser reads exactly the operand kinds DWARF v5 7.7.1 / GNU extensions prescribe (closure analysis of the real table + replay of each parser on concrete operands); the name map is the inverse of the code map and every operation has the opcode number the registries assign (LLVM Dwarf.def; the GNU vendor block from a cited hand transcription)',
       'the parse loop (DWARFExprParser.parse_expr: opcode, offset and operand bookkeeping, whole string consumed) is K1-proved for every byte string over ABSTRACT operand parsers (end/args functions of bytes, position, opcode); what each real table entry reads is the K2 conformance obligation per opcode; nested entry-value expressions and the composition of the two are covered by the bounded sample')
